@@ -13,6 +13,10 @@ import (
 func (g *gen) doInstr(ci *cfgInfo, in ssa.Instruction) {
 	switch x := in.(type) {
 	case *ssa.DebugRef:
+		if v, ok := x.Object().(*types.Var); ok && v.IsField() {
+			// the selector of p.f refers to the field object: not a local variable of that name
+			return
+		}
 		if x.IsAddr && x.Object() != nil {
 			// a variable that lives in memory: remember its address; specs read it through the heap
 			m := g.debugVars[g.curBlock]
@@ -229,7 +233,7 @@ func (g *gen) doInstr(ci *cfgInfo, in ssa.Instruction) {
 		for k, v := range g.cur {
 			st[k] = v
 		}
-		g.retSites = append(g.retSites, &retSite{reach: g.curReach, vals: vs, state: st, pos: x.Pos(), idx: len(g.retSites) + 1})
+		g.retSites = append(g.retSites, &retSite{block: g.curBlock, reach: g.curReach, vals: vs, state: st, pos: x.Pos(), idx: len(g.retSites) + 1})
 	case *ssa.SliceToArrayPointer:
 		g.freshVal(x)
 		g.unmodelled("slice to array pointer", x.Pos())
@@ -891,8 +895,13 @@ func (g *gen) applyCall(val ssa.Value, c *ssa.CallCommon, full, short string, or
 		g.callArgsRec = map[string][]T{}
 	}
 	g.callArgsRec[fmt.Sprintf("%s#%d", short, ord)] = argT
+	if g.callReach == nil {
+		g.callReach = map[string]string{}
+	}
+	g.callReach[fmt.Sprintf("%s#%d", short, ord)] = g.curReach
 	if q := qualShort(full); q != "" {
 		g.callArgsRec[fmt.Sprintf("%s#%d", q, ord)] = argT
+		g.callReach[fmt.Sprintf("%s#%d", q, ord)] = g.curReach
 	}
 	// in-body assertions anchored before this call
 	g.anchoredAsserts(full, short, ord, false, nil, argT, pos)
@@ -1038,8 +1047,8 @@ func (g *gen) applyCall(val ssa.Value, c *ssa.CallCommon, full, short string, or
 		}
 		e.assuming = true
 		for _, en := range ct.Ensures {
-			if strings.Contains(en.Text, "res(") {
-				continue // refers to calls inside the callee: verified there, not visible to callers
+			if bodyInternal(en.Text) {
+				continue // refers to calls or loops inside the callee: verified there, not visible to callers
 			}
 			if t, ok := g.foreignClause(e, ct, en); ok {
 				g.assume(implies(g.curReach, t))
@@ -1168,6 +1177,7 @@ func (g *gen) anchoredAsserts(full, short string, ord int, after bool, res []T, 
 		}
 		k++
 		i := k - 1
+		a.Used = true
 		e := &env{g: g, vars: map[string]T{}, state: g.cur, old: g.initState()}
 		for k, v := range g.params {
 			e.vars[k] = v
@@ -1297,6 +1307,16 @@ func (g *gen) runDeferredClosure(mc *ssa.MakeClosure, fn *ssa.Function) {
 		}
 		g.storeAt(addr, pt.Elem(), nw.S)
 	}
+}
+
+// bodyInternal: the clause mentions calls, loops or locals of the function body it belongs to
+func bodyInternal(text string) bool {
+	for _, k := range []string{"res(", "callarg(", "exhausted(", "rangeindex", "rangeslice"} {
+		if strings.Contains(text, k) {
+			return true
+		}
+	}
+	return false
 }
 
 func (g *gen) definitelyNonNilErr(v ssa.Value) bool {
